@@ -302,4 +302,79 @@ def stripMeta (key : String) : J → J
       else kv))
   | v => v
 
+/-! ## Informer start: the monitor's own list, the window, the informer's list
+
+`Monitor.CreateInformers` lists the objects itself and files them in the cache (`load`, T0). The
+shared informer is started later (`StartMonitor`, T1): it makes its OWN list and hands every object
+of it to `OnAdd` with `isInInitialList = true` (the same happens, from the informer's store, when the
+handler is added to an informer that is running already). Whatever changed in the cluster between T0
+and T1 reaches the handler in no other way. -/
+
+/-- `OnAdd(obj, isInInitialList)`: the flag plays no part — an Added of the informer's initial list
+is compared with the cache like any other change. (Tie: skeleton `C08.OnAdd` — the body is the one
+call of `handleWatchEvent`.) -/
+def onAdd {C : Type} [DecidableEq C] (cfg : Cfg) (cks : J → C) (cache : Cache C)
+    (_isInInitialList : Bool) (id : Nat) (obj : J) : Cache C × Option (Event C) :=
+  handle cfg cks cache .added id obj
+
+/-- The informer's initial list handed to the handler, one object after the other. -/
+def replayInitial {C : Type} [DecidableEq C] (cfg : Cfg) (cks : J → C) :
+    Cache C → List (Nat × J) → Cache C × List (Option (Event C))
+  | cache, [] => (cache, [])
+  | cache, (id, obj) :: rest =>
+    let r := onAdd cfg cks cache true id obj
+    let rr := replayInitial cfg cks r.1 rest
+    (rr.1, r.2 :: rr.2)
+
+/-- The start sequence of a monitor: `loadExistedObjects` on what the monitor listed at T0, then the
+replay of what the informer listed at T1. `none`: the filter fails on an object of the first list
+(the monitor is not created). -/
+def startSequence {C : Type} [DecidableEq C] (cfg : Cfg) (cks : J → C)
+    (listed0 listed1 : List (Nat × J)) : Option (Cache C × List (Option (Event C))) :=
+  match load cfg cks listed0 with
+  | none => none
+  | some c => some (replayInitial cfg cks c listed1)
+
+/-- NOT the code (witness only): an `OnAdd` that drops the objects of the initial list once the
+monitor has pre-loaded its cache ("they are in the cache already"). -/
+def onAddSkipInitial {C : Type} [DecidableEq C] (preloaded : Bool) (cfg : Cfg) (cks : J → C)
+    (cache : Cache C) (isInInitialList : Bool) (id : Nat) (obj : J) : Cache C × Option (Event C) :=
+  if isInInitialList && preloaded then (cache, none) else handle cfg cks cache .added id obj
+
+def replayInitialSkip {C : Type} [DecidableEq C] (preloaded : Bool) (cfg : Cfg) (cks : J → C) :
+    Cache C → List (Nat × J) → Cache C × List (Option (Event C))
+  | cache, [] => (cache, [])
+  | cache, (id, obj) :: rest =>
+    let r := onAddSkipInitial preloaded cfg cks cache true id obj
+    let rr := replayInitialSkip preloaded cfg cks r.1 rest
+    (rr.1, r.2 :: rr.2)
+
+/-! ## Cache keys
+
+The cache is a Go map keyed by `resourceId(obj)` = `namespace/kind/name`, the kind being the kind OF
+THE OBJECT. The `kind` of the binding is only what discovery resolves to a resource (`ConfigMap`,
+`configmap`, `configmaps`, `cm` … are all the same binding); it is at hand in `loadExistedObjects`
+(`ei.Monitor.Kind`) but is no part of any key. -/
+
+structure ObjRef where
+  ns : String
+  kind : String
+  name : String
+  deriving DecidableEq, Repr
+
+/-- `resourceId` (util.go). -/
+def resourceId (o : ObjRef) : String := o.ns ++ "/" ++ o.kind ++ "/" ++ o.name
+
+/-- The key `loadExistedObjects` files a listed object under: `objFilterRes.Metadata.ResourceId`,
+which `applyFilter` has set to `resourceId(obj)` (skeletons `C08.loadExistedObjects`,
+`C08.applyFilter`). -/
+def loadKey (_bindingKind : String) (o : ObjRef) : String := resourceId o
+
+/-- The key `handleWatchEvent` looks an object up by. -/
+def eventKey (o : ObjRef) : String := resourceId o
+
+/-- NOT the code (witness only): the pre-loaded objects keyed with the kind as the binding spells it. -/
+def loadKeyBindingKind (bindingKind : String) (o : ObjRef) : String :=
+  o.ns ++ "/" ++ bindingKind ++ "/" ++ o.name
+
 end ShellOp.Trigger
